@@ -63,7 +63,7 @@ CLAIMS = {
  "C16": ("proof", "Theorems for ALL record lists: one LF-terminated row per record for oligo and coverage, coverage writer drops no record for any limit (D5), one s2m line per record, whole-read window never below m (D6), CGR gives one row per record or refuses exactly when a record holds a non-nucleotide byte, empty input gives empty output (D4); termination by structural recursion. Correspondence: degenerate matrix on binary and library, debug and release, with explicit row-count / NUL / placeholder scans.",
          "7 C16", "runtime aborts and hangs not caused by the modelled logic are outside the model: partial.",
          "Coq proof (structure of the total pipeline models) + degenerate-input correspondence incl. debug/release agreement"),
- "C17": ("proof", "Theorems on a file-system model (create/truncate replaces content; a run touches only its own temp files): the result files after any history of runs equal those of the last run in a fresh location. For the counter the model is concrete (Model/CtrFs.v: temp_kmers.part_P_chunk_C names, their text, read-back, summation, removal, kmers.counts): for every partition count, every list of chunk passes and every previous content of the directory the run does not fail, kmers.counts gets the merged table of this run alone, its own temp files are gone and every other path is untouched (names proved injective, text proved to parse back); this model is run against the real directory content (`ctrfs` cases: listing after count() and after merge, empty or stale directory). Correspondence: histories of 2-3 runs of the binary sharing a location, with stale chunk files, a stale counts table and a longer stale vectors file planted, against the model of the last run alone.",
+ "C17": ("proof", "Theorems on a file-system model (create/truncate replaces content; a run touches only its own temp files): the result files after any history of runs equal those of the last run in a fresh location. For the counter the model is concrete (Model/CtrFs.v: temp_kmers.part_P_chunk_C names, their text, read-back, summation, removal, kmers.counts): for every partition count, every list of chunk passes and every previous content of the directory the run does not fail, kmers.counts gets the merged table of this run alone, its own temp files are gone and every other path is untouched (names proved injective, text proved to parse back); the same for `cov` (cov_fs: counts table read back, kmers.vectors created; the vectors file is proved to be the specified one); both models are run against the real directory content (`ctrfs` / `covfs` cases: listing after count() and after merge, empty or stale directory). Correspondence: histories of 2-3 runs of the binary sharing a location, with stale chunk files, a stale counts table and a longer stale vectors file planted, against the model of the last run alone.",
          "7 C17", "OS file semantics (truncate, set_len, unlink, mmap) are assumed, not modelled.",
          "Coq proof (file-system model, induction over the history) + history replay on the binary"),
 }
